@@ -27,6 +27,19 @@ def _exact_cases():
         for lat in (1, 2):
             out.append(("outage", [("net", "accept"), ("lat", lat), ("blockfirst", 1), ("open",), ("send", 1, "ok", "idem"), ("send", 2, "ok", "conn"),
                                    ("send", 3, "ok", "idem"), ("send", 4, "ok", "conn"), ("adv", lat + wait), ("blockfirst", 0), ("block", 0), ("adv", 16)]))
+    # a held message survives a failed flush (the write fails on a connection that has died, it goes back for a retry), the link then
+    # stays down past the lifetime its sender asked for, and the buffer is filled: the old message has expired - it occupies no slot
+    # (the tenth fresh message is accepted) and is not transmitted on the next connection
+    for k in (1, 5, 12):
+        for fresh in (9, 10, 11):
+            for pol in ("idem", "nonidem"):
+                # connecting takes 2 ticks; attempt k starts at 18k and ends at 18k+2: that one is accepted but its first write fails, the
+                # immediate next attempt (ending at 18k+4) and all later ones are refused until the end
+                sc = [("net", "refuse"), ("lat", 2), ("open",), ("adv", 1), ("send", 1, "ok", pol), ("adv", 18 * k), ("failfirst", 1), ("net", "accept"), ("adv", 2),
+                      ("net", "refuse"), ("failfirst", 0), ("adv", 250 - (18 * k + 3))]
+                sc += [("send", 2 + i, "ok", "idem") for i in range(fresh)]
+                sc += [("net", "accept"), ("adv", 40)]
+                out.append(("outage", sc))
     return out
 
 
